@@ -23,7 +23,8 @@
             ve: the run ended with ValueError)
     spec_eval <locktime> <sequence> <version> <cmds>
          -> `ACCEPT|REJECT|OVERSIZE|UNSUPPORTED`
-  <cfg> is `r` (repaired: fix-F07a/c/d applied) or `a` (as is).
+  <cfg> is `r` (repaired: every C07 and C06 patch applied), `p` (C07 patches only: /repo at a5beaa1)
+  or `a` (before the C07 patches).
 -/
 import Buidl.Drv.Proto
 import Buidl.Model.Interp
@@ -36,7 +37,8 @@ namespace Buidl.DrvC07
 def optS (o : Option String) : String := o.getD BADOP
 
 def parseCfg (s : String) : Option Interp.Cfg :=
-  if s = "r" then some Interp.Cfg.repaired else if s = "a" then some Interp.Cfg.asIs else none
+  if s = "r" then some Interp.Cfg.repaired else if s = "a" then some Interp.Cfg.asIs
+  else if s = "p" then some Interp.Cfg.preC06 else none
 
 def oneCmd : List String → Option (Cmd × List String)
   | t :: r =>
